@@ -125,7 +125,7 @@ func ActionRawValues(currentWord string, meta common.Meta, values common.RawValu
 }
 
 func requiresQuoting(s string) bool {
-	chars := " \t\r\n`" + `[]{}()<>;|$&:*#`
+	chars := " \t\r\n`" + `[]{}()<>;|$&:*?#`
 	chars += `'"`
 	chars += os.Getenv("COMP_WORDBREAKS")
 	chars += `\`
